@@ -475,5 +475,5 @@ func genMatrix(mc matrixCase, i int) (string, hv.Val) {
 }
 
 func main() {
-	hv.Main(&hv.Spec{Prop: "C42", Gen: gen, Impl: impl, Setup: setup, NQuick: 6000, NThorough: 300000})
+	hv.Main(&hv.Spec{Prop: "C42", Gen: gen, Impl: impl, Setup: setup, NQuick: 4500, NThorough: 300000})
 }
